@@ -4,6 +4,7 @@ is sound and complete.  The float Newton iteration of `Intersection.curve_and_cu
 per input against this oracle.
 -/
 import NurbsVerif.Proofs.Geom
+import NurbsVerif.Proofs.Hull
 
 namespace NV
 
@@ -25,6 +26,19 @@ theorem C20_segment_pair (pa pb : Piece)
     (horner (pa.num.getD 0 []) t = horner (pb.num.getD 0 []) u ∧ horner (pa.num.getD 1 []) t = horner (pb.num.getD 1 []) u)
       ↔ (segCross pa pb).sol = some (t, u) :=
   segCross_iff pa pb hax hay hbx hby hdet t u ht hu
+
+/-- **C20 (bounding boxes).**  Polynomial B-spline curves stay inside the bounding box of their control points
+(non-negativity + partition of unity), so if in some coordinate all control values of `A` are at most `m` and
+all control values of `B` exceed `m`, no pair of parameters is a meeting pair: rejecting such pairs of Bézier
+pieces loses no intersection. -/
+theorem C20_disjoint_boxes_no_meeting (ka kb : KV) (hka : Ordered ka) (hkb : Ordered kb)
+    (sa sb : Nat) (t u : Rat) (hpa : ka.deg ≤ sa) (hsa : sa < ka.npts) (hpb : kb.deg ≤ sb) (hsb : sb < kb.npts)
+    (hta : InSpan (nth ka.v) ka.umax sa t) (hub : InSpan (nth kb.v) kb.umax sb u)
+    (va vb : Nat → Rat) (m lo : Rat)
+    (hAlo : ∀ i, i < ka.npts → lo ≤ va i) (hA : ∀ i, i < ka.npts → va i ≤ m) (hB : ∀ i, i < kb.npts → m < vb i) :
+    (Finset.range ka.npts).sum (fun i => cdb ka.v ka.umax i ka.deg t * va i)
+      < (Finset.range kb.npts).sum (fun i => cdb kb.v kb.umax i kb.deg u * vb i) :=
+  disjoint_boxes_no_meeting ka kb hka hkb sa sb t u hpa hsa hpb hsb hta hub va vb m lo hAlo hA hB
 
 /-! non-vacuity: the diagonals of the square cross at (1/2, 1/2) -/
 example : (segCross ⟨0, 1, [[0, 2], [0, 2]], [1]⟩ ⟨0, 1, [[0, 2], [2, -2]], [1]⟩).sol = some (mkRat 1 2, mkRat 1 2) := by
